@@ -1,6 +1,7 @@
 package props
 
 import (
+	"go/token"
 	"strings"
 
 	"verif/checker/internal/an"
@@ -48,6 +49,8 @@ func c06(c *Ctx) {
 		return
 	}
 	tr := an.NewTracer()
+	r.Rule("R06.N", "numbers the server sends as TL bytes (pq, g_a, dh_prime) are only ever converted with SetBytes or copied into TL bytes fields: no length test, comparison or slicing of the transmitted form, whose leading zero bytes are the sender's choice", 3)
+	c06WireNumbers(c, mk)
 	r.Rule("R06.F", "a fingerprint of the configured key anywhere in the server's list is accepted: once an element compared equal, the not-found abort cannot happen (early exit, or a flag that stays true)", 1)
 	r.Rule("R06.K", "derived values: tmp_aes_key/iv, the RSA payload, auth_key, new_nonce_hash1 and server_salt are computed by the protocol's formulas (extracted expressions compared with the table)", 6)
 	if c.verifySummaries("R06.K") {
@@ -402,4 +405,50 @@ func flagTrueImplies(fn *ssa.Function, acc map[*ssa.Phi]bool, v ssa.Value) bool 
 		}
 	}
 	return true
+}
+
+// c06WireNumbers: R06.N.
+func c06WireNumbers(c *Ctx, mk *ssa.Function) {
+	r := c.R
+	fields := map[string]bool{"objects.ServerDHInnerData.GA": true, "objects.ServerDHInnerData.DhPrime": true, "objects.ResPQ.Pq": true}
+	n := map[string]int{}
+	for _, b := range mk.Blocks {
+		for _, in := range b.Instrs {
+			ld, ok := in.(*ssa.UnOp)
+			if !ok || ld.Op != token.MUL {
+				continue
+			}
+			fa, ok := ld.X.(*ssa.FieldAddr)
+			if !ok {
+				continue
+			}
+			fn := an.FieldName(fa.X.Type(), fa.Field)
+			if !fields[fn] {
+				continue
+			}
+			n[fn]++
+			key := sprintf("wire-number:%s#%d", fn, n[fn])
+			var bad []string
+			fw := an.NewForward(func(g *ssa.Function) bool { return false })
+			for _, u := range fw.Uses(ld) {
+				at := c.pos(u.Instr.Pos())
+				switch u.Kind {
+				case "arg":
+					if !(widthInsensitive[u.Callee] || widthSanitisers[u.Callee]) {
+						bad = append(bad, "passed to "+shortCallee(u.Callee)+" at "+at)
+					}
+				case "store":
+					if !c.isTLObjectStruct(u.Field) {
+						bad = append(bad, "stored as "+u.Field+" at "+at)
+					}
+				default:
+					bad = append(bad, u.Kind+" of the transmitted bytes at "+at)
+				}
+			}
+			r.Check(len(bad) == 0, "R06.N", key, c.pos(ld.Pos()), "uses of the transmitted form other than SetBytes / a TL bytes field: "+strings.Join(bad, "; ")+" — a conformant server may send the number without leading zero bytes, so the exchange would fail for such values")
+		}
+	}
+	if len(n) == 0 {
+		r.Undecide("R06.N", "wire-number", c.pos(mk.Pos()), "no load of ResPQ.Pq / ServerDHInnerData.GA / DhPrime found in makeAuthKey")
+	}
 }
